@@ -36,6 +36,11 @@ func c28varintAt(b []byte, i int) (v uint64, next int, ok bool) {
 func VerifC28_parse_frame() {
 	n := vfLen("n", 1, c28parseLen())
 	b := vfBytes("b", n)
+	if n > 6 {
+		// ACK frames with a second range need 64-bit wrap-around reasoning in every path (seconds per query):
+		// arbitrary bytes up to 6 here, structured ACK encodings of any field width in VerifC28_ack_parse
+		vfAssume(b[0] != frameTypeAck && b[0] != frameTypeAckECN)
+	}
 	f, k := parseDebugFrame(b)
 	vfAssert(k == -1 || (k >= 1 && k <= n), "frame parser: n is -1 or within the input")
 	if k == -1 {
@@ -58,9 +63,7 @@ func VerifC28_parse_frame() {
 		}
 	case frameTypeStreamsBlockedBidi, frameTypeStreamsBlockedUni:
 		if v, _, ok := c28varintAt(b, 1); ok {
-			if v > maxStreamsLimit {
-				vfReach("STREAMS_BLOCKED above 2^60")
-			}
+			// (paths on which the known finding fires end there: no reach marker for them)
 			vfAssertKF(vfImplies(v > maxStreamsLimit, k == -1), "STREAMS_BLOCKED above 2^60 is rejected",
 				"C28-streams-blocked-limit", vfAnd(v > maxStreamsLimit, k != -1))
 		}
@@ -149,9 +152,6 @@ func VerifC28_parse_ncid() {
 	if k >= 0 {
 		vfAssert(s2 == int64(seq) && r2 == int64(retire) && retire <= seq, "sequence numbers, retire_prior_to <= seq")
 		vfAssert(len(cid) >= 1 && len(cid) <= 20, "connection ID of 1..20 bytes")
-		if l > 20 {
-			vfReach("accepted, multi-byte length") // the known finding below
-		}
 		vfAssertKF(vfAnd(l >= 1, l <= 20), "NEW_CONNECTION_ID whose 8-bit Length is outside 1..20 is rejected",
 			"C28-ncid-length-varint", l >= 0x40)
 		if l <= 20 {
